@@ -336,6 +336,11 @@ func (cmd *mainCmd) Run(args []string) error {
 				continue
 			}
 
+		} else if _, err := parser.ParseFile(token.NewFileSet(), filename, bs, parser.ParseComments); err != nil {
+			// Without import processing nothing else re-parses the
+			// generated source. Don't emit code that isn't valid Go.
+			errors = append(errors, fmt.Errorf("reformat %q: %w", filename, err))
+			continue
 		}
 
 		switch {
